@@ -91,10 +91,12 @@ def run(ctx, rep):
     folder_arithmetic_cannot_panic(F, rep)
     generator_errors_are_propagated(F, rep)
     path_parts_exist(F, rep)
+    from props import _keywords
+    rep.floor("C16.backtracking pairs of alternatives judged", _keywords.backtracking(F, rep, "C16.backtracking"), 100)
     # an index into a map that is compiled on the list path converts its constant key to a position during code generation (an Err there, and what it
     # leaves half-built, is not an input error any more): the dispatch clause of C13 also belongs here
     from props import C13 as _c13
-    _c13.index_dispatch(F, rep, rule="C16.index-dispatch")
+    _c13.index_dispatch(ctx.facts("default", ["bytecode", "compiler"]), rep, rule="C16.index-dispatch")
     rep.extra["analysis_rounds"] = fl.rounds
     rep.extra["hand_assembled_option_unwraps_counted_not_judged"] = getattr(fl, "uncounted", 0)
     # K4 panics outside the clause: counted
